@@ -1035,3 +1035,28 @@ srctie.wire_mut(globals(), 'C01')
 PROOF_MODULES = PROOF_MODULES + [m for m in ['Compute.Lemmas.Rounding6', 'Compute.Props.Rounding6'] if m not in PROOF_MODULES]
 REQUIRED_THEOREMS = REQUIRED_THEOREMS + ['Cv.Rounding6.luRoute_residual_norm', 'Cv.Rounding6.luRoute_residual_growth', 'Cv.Rounding6.chol_weight_le', 'Cv.Rounding6.choleskyRoute_residual_norm', 'Cv.Rounding6.invertMatrix_residual']
 NOT_PROVED = list(NOT_PROVED) + ["in the property's norm-wise form (Props/Rounding6), per component: LU route |b - A x|_i <= gamma_(3n) rho ||A|| ||x|| with rho = || |L||U| || / ||A|| explicit and NOT bounded; Cholesky route |b - A x|_i <= gamma_(3n+1) n/(1-gamma_(n+1)) max a_ii ||x|| unconditionally (no growth quantity)"]
+
+# --- review round (property owner): Matrix entry points total + backward error transported; claims tightened
+PROOF_MODULES = PROOF_MODULES + [m for m in ['Compute.Props.C01Review'] if m not in PROOF_MODULES]
+REQUIRED_THEOREMS = REQUIRED_THEOREMS + [t for t in [
+    'Cv.C01Review.matrix_solveV_total', 'Cv.C01Review.matrix_solve_total', 'Cv.C01Review.matrix_inv_total',
+    'Cv.C01Review.matrix_solveV_none', 'Cv.C01Review.matrix_solveM_no_columns', 'Cv.C01Review.matrix_inv_order_zero',
+    'Cv.C01Review.matrix_solveV_routes_slice', 'Cv.C01Review.matrix_solveV_backward_error',
+    'Cv.C01Solve.cholesky_posDef', 'Cv.C01.ratSqrt_witness'] if t not in REQUIRED_THEOREMS]
+NOT_PROVED = list(NOT_PROVED) + [
+    "the rounding theorems (solve_backward_error, luRoute_*, choleskyRoute_*, matrix_solveV_backward_error) hold for n >= 2 under (3n+1)u < 1, "
+    "PROVIDED no computed pivot is zero and every operation obeys fl(x) = x(1+d), |d| <= u, i.e. no overflow and no underflow (FlModel quantifies "
+    "over all reals, which no binary64 run satisfies globally; in the model x/0 rounds to 0 where the code yields inf/NaN); at the extreme "
+    "power-of-two scales of the generator (|k| up to 1000) and for subnormal intermediates these hypotheses fail and only the oracle decides",
+    "FINITENESS of the returned values / absence of overflow: no theorem; decided per run by the oracle only (every generated in-scope system must give finite values)",
+    "rounding theorems are stated for solve, invert_matrix (Props/Rounding6) and Matrix::solve with a Vector (Props/C01Review); solve_sys and Matrix::solve with a Matrix "
+    "inherit them column by column only through solveSys_column / matrix_solve_correct (no separately stated rounded theorem); Matrix::inv likewise",
+    "is_square: the Rust code takes an f32 square root; the model uses the exact integer square root. They agree for every length below 2^24 "
+    "(at 2^24+1 Rust answers Ok(4096) and the model panics); every theorem that quantifies over the length is about the model, i.e. holds for the code only for fewer than 2^24 elements",
+]
+TRUSTED = list(TRUSTED) + [
+    "standard model of floating-point arithmetic (Lemmas/FlModel: fl(a op b) = (a op b)(1+d), |d| <= u for + - * / and FlSqrt for sqrt) as the link between the rounding theorems and IEEE binary64 - valid only without overflow/underflow",
+    "oracle scope: residual and agreement bounds are enforced for cond_inf <= 1e11 (the property quantifies to 1e10); route / entry-point agreement tolerance is 500 n eps cond (about 3.5e-2 relative at cond 1e10, n = 32), residual tolerance 200 n eps (|A||X|+|B|)",
+    "source tie covers the slice-level routines only (substitutions, lu, lu_solve, try_cholesky, cholesky_solve, and the routing glue / per-column loops of solve, solve_sys, invert_matrix); "
+    "the predicates is_symmetric / is_positive_definite / is_exactly_symmetric / is_square / is_matrix and every Matrix method (Matrix::lu, Solve::lu_solve, Solve<Matrix>::{lu_solve, solve}, Matrix::inv) are hand-modelled and tied by run-time bit-exact correspondence only",
+]
